@@ -1931,7 +1931,12 @@ def find_missing_imports(arg, namespaces):
     if isinstance(arg, (DottedIdentifier, str)):
         try:
             if isinstance(arg, str):
-                # Python normalizes identifiers (NFKC) while parsing.
+                # Python normalizes identifiers (NFKC) while parsing.  Only
+                # text that is a dotted name as it stands qualifies: the
+                # normalization must not turn text that does not parse
+                # ('a\uff0eb', 'x\u2460') into a name.
+                if not all(part.isidentifier() for part in arg.split(".")):
+                    raise BadDottedIdentifierError
                 arg = DottedIdentifier(unicodedata.normalize("NFKC", arg))
             else:
                 arg = DottedIdentifier(arg)
